@@ -242,13 +242,54 @@ impl Deserializable for ProofOptions {
     /// # Errors
     /// Returns an error of a valid proof options could not be read from the specified `source`.
     fn read_from<R: ByteReader>(source: &mut R) -> Result<Self, DeserializationError> {
+        let num_queries = source.read_u8()? as usize;
+        let blowup_factor = source.read_u8()? as usize;
+        let grinding_factor = source.read_u8()? as u32;
+        let field_extension = FieldExtension::read_from(source)?;
+        let fri_folding_factor = source.read_u8()? as usize;
+        let fri_remainder_max_degree = source.read_u8()? as usize;
+
+        // the constructor panics on invalid parameters; the bytes are not trusted, so the same
+        // conditions are checked here and reported as errors
+        if num_queries == 0 || num_queries > MAX_NUM_QUERIES {
+            return Err(DeserializationError::InvalidValue(format!(
+                "number of queries must be between 1 and {MAX_NUM_QUERIES}, but was {num_queries}"
+            )));
+        }
+        if !blowup_factor.is_power_of_two()
+            || !(MIN_BLOWUP_FACTOR..=MAX_BLOWUP_FACTOR).contains(&blowup_factor)
+        {
+            return Err(DeserializationError::InvalidValue(format!(
+                "blowup factor must be a power of two between {MIN_BLOWUP_FACTOR} and {MAX_BLOWUP_FACTOR}, but was {blowup_factor}"
+            )));
+        }
+        if grinding_factor > MAX_GRINDING_FACTOR {
+            return Err(DeserializationError::InvalidValue(format!(
+                "grinding factor cannot be greater than {MAX_GRINDING_FACTOR}, but was {grinding_factor}"
+            )));
+        }
+        if !fri_folding_factor.is_power_of_two()
+            || !(FRI_MIN_FOLDING_FACTOR..=FRI_MAX_FOLDING_FACTOR).contains(&fri_folding_factor)
+        {
+            return Err(DeserializationError::InvalidValue(format!(
+                "FRI folding factor must be a power of two between {FRI_MIN_FOLDING_FACTOR} and {FRI_MAX_FOLDING_FACTOR}, but was {fri_folding_factor}"
+            )));
+        }
+        if !(fri_remainder_max_degree + 1).is_power_of_two()
+            || fri_remainder_max_degree > FRI_MAX_REMAINDER_DEGREE
+        {
+            return Err(DeserializationError::InvalidValue(format!(
+                "FRI remainder degree must be one less than a power of two and at most {FRI_MAX_REMAINDER_DEGREE}, but was {fri_remainder_max_degree}"
+            )));
+        }
+
         Ok(ProofOptions::new(
-            source.read_u8()? as usize,
-            source.read_u8()? as usize,
-            source.read_u8()? as u32,
-            FieldExtension::read_from(source)?,
-            source.read_u8()? as usize,
-            source.read_u8()? as usize,
+            num_queries,
+            blowup_factor,
+            grinding_factor,
+            field_extension,
+            fri_folding_factor,
+            fri_remainder_max_degree,
         ))
     }
 }
